@@ -17,6 +17,9 @@ def make_cfg(rnd, job):
     mode = job.get("mode") or rnd.choice(MODES)
     nn = rnd.randint(1, 3)
     k = rnd.choice([0, 1, 2, 3, 4, 5, 6, 8, 10, 13])
+    if job.get("big"):         # thorough tier: a share of larger sessions
+        nn = rnd.randint(2, 5)
+        k = rnd.choice([13, 21, 34])
     style = rnd.choice(["flat", "files", "classes", "groups"])
     ids = make_ids(rnd, k, style)
     profile = job.get("profile", "mixed")
@@ -127,7 +130,7 @@ def run_online(job):
     labels, obs = [], []
     ext_crash_p = job.get("ext_crash_p", 0.0)
     ncrash = 0
-    maxsteps = job.get("maxsteps", 1500)
+    maxsteps = job.get("maxsteps", 8000 if job.get("big") else 1500)
     stuck = False
     bias = rnd.choice(["uniform", "ctl-first", "workers-first", "slow-recv"])
     try:
